@@ -120,4 +120,23 @@ def runTrace (A : SeqArith) : Pool → List Op → Trace
     | .ok x => opTrace P op x.2 ++ runTrace A x.1 ops
     | _ => []
 
+/-- all items delivered in a stream's history -/
+def gotItems : List HEv → List Reasm
+  | [] => []
+  | .got items :: rest => items ++ gotItems rest
+  | _ :: rest => gotItems rest
+
+/-- a SYN segment was handed to the stream's connection -/
+def synFed (h : List HEv) : Prop := ∃ s, HEv.fed s ∈ h ∧ s.syn = true
+
+/-- stream offset of the first payload byte of a non-SYN segment, given the initial sequence number -/
+def offW (isn : Nat) (s : Seg) : Nat := ((s.seq - (isn : Int) - 1) % 4294967296).toNat
+
+/-- offset `x` of the sender's stream lies in the payload of segment `s` -/
+def covW (isn : Nat) (s : Seg) (x : Nat) : Prop :=
+  (s.syn = true ∧ x < s.bytes.length) ∨ (s.syn = false ∧ offW isn s ≤ x ∧ x < offW isn s + s.bytes.length)
+
+/-- offset `x` was handed to the stream's connection by some segment of its history -/
+def fedOffsW (isn : Nat) (h : List HEv) (x : Nat) : Prop := ∃ s, HEv.fed s ∈ h ∧ covW isn s x
+
 end Gp.Asm
